@@ -25,7 +25,8 @@ EXTENDS Annotations
 
 CONSTANTS
     AnnChoices,       \* parameter annotations: subset of {"noann","int","str","QA","QTE","TE","OptInt","ListInt","T"}
-    DefaultChoices,   \* subset of {"none","int:1","None","..."}
+    DefaultChoices,   \* subset of {"none","int:1","None","...","name","call","lambda"}: the last three are defaults that
+                      \* are not literals -- a module constant `D` (= 1), a call `mk()` (returns the int 1), `lambda: 1`
     RetChoices,       \* return annotations (same vocabulary, plus "None")
     AsyncChoices,     \* subset of BOOLEAN
     FutureChoices,    \* subset of BOOLEAN
@@ -44,6 +45,8 @@ AnnExpr(c) ==
       [] c = "TE" -> Nm("TimeoutError")
       [] c = "OptInt" -> Sub("Optional", <<Nm("int")>>)
       [] c = "ListInt" -> Sub("list", <<Nm("int")>>)
+      [] c = "IterInt" -> Sub("Iterator", <<Nm("int")>>)          \* return annotations of (async) generators
+      [] c = "AIterInt" -> Sub("AsyncIterator", <<Nm("int")>>)
       [] OTHER -> Nm(c)                     \* int, str, T, None
 
 Kinds == <<"POSITIONAL_ONLY", "POSITIONAL_OR_KEYWORD", "VAR_POSITIONAL", "KEYWORD_ONLY", "VAR_KEYWORD">>
@@ -76,6 +79,9 @@ ImplCoro(v) == Mk("Generic", "Coroutine", <<AnyV("inference"), AnyV("inference")
 ImplDefDefault(d) ==
     CASE d = "none" -> NoDefault
       [] d = "..." -> AnyV("unannotated")
+      [] d = "name" -> KnownV("int:1")             \* the visitor knows the module constant
+      [] d = "call" -> TypedV("int")               \* the declared return type of mk
+      [] d = "lambda" -> CallableV(SigV(<< >>, KnownV("int:1")))   \* visit_Lambda: () -> Literal[1]
       [] OTHER -> KnownV(d)
 
 \* arg_spec.py:456 _make_sig_parameter + the make_everything_pos_only loop of from_signature (:437)
@@ -117,7 +123,9 @@ ImplRtParamType(h, p) ==
 
 ImplRtDefault(p) ==
     IF p.dflt = "none" \/ (BugRuntimeIgnoresKwDefaults /\ p.kind = "KEYWORD_ONLY") THEN NoDefault
-    ELSE KnownV(p.dflt)                                                                  \* :476
+    ELSE KnownV(CASE p.dflt \in {"name", "call"} -> "int:1"                              \* :476 the object found on the
+                  [] p.dflt = "lambda" -> "obj:<lambda>"                                  \*      function: the VALUE
+                  [] OTHER -> p.dflt)
 
 ImplSigRt(h) ==
     LET ret0 == IF h.ret = NoAnn THEN AnyV("unannotated")                                \* :424
@@ -145,6 +153,17 @@ RefUndeclared(kind, v) ==
 RefSameName(x, y) == x.t = "Param" /\ y.t = "Param" /\ x.n = y.n
 RefSameKind(x, y) == x.a[1] = y.a[1]
 RefSameDefault(x, y) == x.a[2] = y.a[2]            \* absent in both, or the same default value
+\* A default that is not a literal has a value only when the def statement is executed.  The view derived from the def
+\* statement may then show what is statically known of that value -- the type a call is declared to return, the
+\* signature of a lambda -- and that is the same default "up to representation" iff the runtime value is of that kind.
+\* (Only for parameters whose default is written as a call / a lambda; everywhere else the defaults must be equal.)
+RefConstType(c) == CASE c = "int:1" -> "int" [] c = "None" -> "NoneType" [] OTHER -> "?"
+RefValueOfType(v, w) == v.t = "Typed" /\ w.t = "Known" /\ RefConstType(w.n) = v.n
+RefLambdaOfSig(v, w) == v.t = "Callable" /\ w = V("Known", "obj:<lambda>", << >>)
+RefSameDefaultP(p, x, y) ==
+    \/ RefSameDefault(x, y)
+    \/ p.dflt = "call" /\ (RefValueOfType(x.a[2], y.a[2]) \/ RefValueOfType(y.a[2], x.a[2]))
+    \/ p.dflt = "lambda" /\ (RefLambdaOfSig(x.a[2], y.a[2]) \/ RefLambdaOfSig(y.a[2], x.a[2]))
 RefSameAnnotation(p, x, y) ==
     IF p.ann = NoAnn THEN RefUndeclared(x.a[1].n, x.a[3]) /\ RefUndeclared(y.a[1].n, y.a[3])
     ELSE RefSame(x.a[3], y.a[3])
@@ -155,12 +174,12 @@ RefSameSigModulo(h, s1, s2, exceptKinds, exceptDefaults) ==
        /\ \A i \in 1..n :
              /\ RefSameName(s1.a[i], s2.a[i])
              /\ (exceptKinds \/ RefSameKind(s1.a[i], s2.a[i]))
-             /\ (exceptDefaults \/ RefSameDefault(s1.a[i], s2.a[i]))
+             /\ (exceptDefaults \/ RefSameDefaultP(h.params[i], s1.a[i], s2.a[i]))
              /\ RefSameAnnotation(h.params[i], s1.a[i], s2.a[i])
        /\ RefSame(s1.a[n + 1], s2.a[n + 1])
 RefSameSig(h, s1, s2) == RefSameSigModulo(h, s1, s2, FALSE, FALSE)
 KindsDiffer(h, s1, s2) == \E i \in 1..Len(h.params) : ~RefSameKind(s1.a[i], s2.a[i])
-DefaultsDiffer(h, s1, s2) == \E i \in 1..Len(h.params) : ~RefSameDefault(s1.a[i], s2.a[i])
+DefaultsDiffer(h, s1, s2) == \E i \in 1..Len(h.params) : ~RefSameDefaultP(h.params[i], s1.a[i], s2.a[i])
 
 \* Known deviation: the PEP 484 convention "a parameter named __x is positional-only" is applied to the
 \* runtime signature only (arg_spec.py:480); compute_parameters keeps POSITIONAL_OR_KEYWORD.
@@ -236,6 +255,11 @@ HeaderViewsAgree ==
     stage = "done" => RefSameSigModulo(case, ImplSigDef(case), ImplSigRt(case),
                                        Dev_DunderPositionalOnly(case), Dev_EllipsisDefault(case))
 HeaderViewsAgreeStrict == stage = "done" => RefSameSig(case, ImplSigDef(case), ImplSigRt(case))
+\* sensitivity of the "up to representation" clause for non-literal defaults: demanding EQUAL defaults is violated
+\* as soon as a default is written as a call or a lambda (and by nothing else outside the ellipsis class)
+HeaderDefaultsEqual ==
+    (stage = "done" /\ ~Dev_EllipsisDefault(case)) =>
+        \A i \in 1..Len(case.params) : RefSameDefault(ImplSigDef(case).a[i], ImplSigRt(case).a[i])
 \* both views report the names and default-presence CPython reports; kinds too, except where the PEP 484
 \* convention for __names deliberately departs from it
 ViewsMatchInspect ==
